@@ -537,9 +537,12 @@ func (s *socket) flush() {
 	if s.ReadyState() != "closed" && s.Transport().Writable() {
 		if wbuf := s.writeBuffer.AllAndClear(); len(wbuf) > 0 {
 			socket_log.Debug("flushing buffer to transport")
+			// the callbacks of this batch are taken with it: a flush listener that calls
+			// Send registers a callback for a packet of a LATER batch
+			packetsFn := s.packetsFn.AllAndClear()
 			s.Emit("flush", wbuf)
 			s.server.Emit("flush", s, wbuf)
-			if packetsFn := s.packetsFn.AllAndClear(); len(packetsFn) > 0 {
+			if len(packetsFn) > 0 {
 				s.sentCallbackFn.Push(packetsFn)
 			} else {
 				s.sentCallbackFn.Push(nil)
